@@ -1,16 +1,18 @@
 #!/bin/sh
 # usage: eval_seeded.sh <Cxx> <out dir with m1..mN> <worktree>
 # For every mutation: confirm it independently, run the property's check against it, store it under seeded/.
-pid=$1; out=$2; wt=$3
+pid=$1; out=$2; wt=$3; pre=${4:-}
 cd /verif
 for d in "$out"/m*; do
   m=$(basename "$d")
+  tags=$(python3 -c "import json;print(json.load(open('$d/meta.json')).get('tags',''))")
+  [ -n "$tags" ] && export SEED_TAGS="$tags"
   dp=$(python3 -c "import json;print(json.load(open('$d/meta.json')).get('demo_path',''))")
   pkg=$(dirname "${dp#go/}")
   conf=$(tools/confirm_seeded.sh "$d" "$wt" "$pkg" 2>&1 | tail -1)
   res=$(tools/try_seeded.sh "$pid" "$d/patch.diff" 2>&1 | grep -E "VIOLATION|check-exit|KNOWN" | tr '\n' ' ')
   echo "== $pid-$m | $conf | $res"
-  mkdir -p "seeded/$pid-$m"; cp "$d"/* "seeded/$pid-$m/"
+  m="$pre$m"; mkdir -p "seeded/$pid-$m"; cp "$d"/* "seeded/$pid-$m/"
   python3 - "$pid" "$m" "$conf" "$res" <<'PY'
 import json,sys
 pid,m,conf,res=sys.argv[1:5]
